@@ -204,16 +204,7 @@ def r4(ctx, prog):
             ctx.ob('C13.R4', '%s|cursor%s@%s' % (f.name, op, why.split(' ')[0]), ok, 'cursor %s: %s' % (op, why), where=f.loc(st['i']))
     if n < 8:
         raise AnalysisBroken('expected >=8 cursor updates, found %d' % n)
-    # erase/insert positions use the guarded cursor
-    for f in prog.funcs.values():
-        if not f.file.endswith('terminal/impl/terminal_key_events.cpp'):
-            continue
-        for st in f.calls():
-            if st.get('fn') in ('erase', 'insert') and 'obj' in st and (f.field_of(st['obj']) or '').endswith('curr_input'):
-                p = q.pt(f, st)
-                guards = f.cfg.controlling_branches(p)
-                ok = any(any(x.endswith('SessionContext::cursor') for x in q.subtree_fields(f, c)) for c, k, b in guards)
-                ctx.ob('C13.R4', '%s|%s-pos' % (f.name, st['fn']), ok, 'curr_input.%s position is under a cursor range guard' % st['fn'], where=f.loc(st['i']))
+    # (the positions handed to erase/insert/substr are decided exactly by the editor replay, C13.R18)
 
 
 def _cleanup_idiom_ok(prog, f):
